@@ -271,8 +271,22 @@ def make_case(rng):
     center = str(rng.choice(['peak', 'trough']))
     method = str(rng.choice(['cycles', 'cycles', 'amp']))
 
+    fek = None
+    if rng.random() < 0.35:
+        # extrema options of the flattened analysis: a boundary, no padding, another filter length
+        fek = {}
+        if rng.random() < 0.6:
+            fek['boundary'] = int(rng.choice([5, int(period), int(3 * period)]))
+        if rng.random() < 0.4:
+            fek['filter_kwargs'] = {'n_cycles': int(rng.choice([2, 5, 7]))}
+        if rng.random() < 0.3:
+            fek['pad'] = False
+        fek = fek or {'boundary': int(2 * period)}
+
     def opts():
         o = {'center_extrema': center, 'burst_method': method}
+        if fek is not None:
+            o['find_extrema_kwargs'] = copy.deepcopy(fek)
         if method == 'cycles':
             o['threshold_kwargs'] = gen.gen_thresholds_cycles(rng, full=rng.random() < 0.6)
         else:
